@@ -110,6 +110,7 @@ func checkC06(c c06Case, o *Obs) error {
 	o.Label("measure:" + c.Measure)
 	o.LabelIf(c.Table, "table")
 	o.LabelIf(len(c.Targets) > 12, "targets>12")
+	o.LabelIf(sharesName(c.Queries, c.Targets), "query-named-like-a-target")
 	o.LabelIf(len(c.Targets[0].Seq) >= 64, "width>=64")
 	lines := splitLines(out.String())
 	if len(lines) == 0 {
@@ -533,7 +534,36 @@ func genC06(t *rapid.T) c06Case {
 		c.TLay.Width = rapid.SampledFrom([]int{0, 60, 64, 70, 80, 64}).Draw(t, "wideWrap")
 	}
 	c.CLI = rapid.IntRange(0, 19).Draw(t, "cli") == 0
+	shareNames(t, c.Queries, c.Targets)
 	return c
 }
 
 func TestC06(t *testing.T) { runProp(t, "C06", genC06, checkC06) }
+
+// shareNames: in one case in four the queries are named like records of the target file (the everyday use: looking up the
+// neighbours of sequences that are themselves in the database), whatever their sequences are; names carry no meaning for
+// any distance or order.
+func shareNames(t *rapid.T, queries, targets []FaRec) {
+	if len(targets) == 0 || rapid.IntRange(0, 3).Draw(t, "sharedNames") != 0 {
+		return
+	}
+	perm := rapid.Permutation(targets).Draw(t, "sharedNameOrder")
+	for i := range queries {
+		if i < len(perm) {
+			queries[i].ID = perm[i].ID
+		}
+	}
+}
+
+func sharesName(queries, targets []FaRec) bool {
+	names := map[string]bool{}
+	for _, r := range targets {
+		names[r.ID] = true
+	}
+	for _, q := range queries {
+		if names[q.ID] {
+			return true
+		}
+	}
+	return false
+}
